@@ -20,6 +20,12 @@ func NeverNil(v ssa.Value, depth int) bool {
 		return NeverNil(x.X, depth+1)
 	case *ssa.Call:
 		g := x.Call.StaticCallee()
+		if g != nil && g.Pkg != nil {
+			switch g.Pkg.Pkg.Path() + "." + g.Name() {
+			case "fmt.Errorf", "errors.New":
+				return true
+			}
+		}
 		if g == nil || len(g.Blocks) == 0 || g.Signature.Results().Len() != 1 {
 			return false
 		}
